@@ -130,6 +130,8 @@ type ssEnv struct {
 	keys [4]*ecdsa.PrivateKey
 	cons []sdk.ConsAddress
 	noV  sdk.ValAddress
+
+	lastDiff []ssDiffEntry // the complete store diff of the last case (ssRestCase)
 }
 
 var ssBase *ssEnv
@@ -708,8 +710,9 @@ func ssDump(ctx sdk.Context, k *storetypes.KVStoreKey) map[string][]byte {
 }
 
 type ssDiffEntry struct {
-	Store string `json:"store"`
-	Key   string `json:"key"`
+	Store   string `json:"store"`
+	FullKey string `json:"-"`
+	Key     string `json:"key"`
 	A     string `json:"eth"`    // value after the Ethereum transaction ("-" = absent)
 	B     string `json:"native"` // value after the native message
 	What  string `json:"what,omitempty"`
@@ -784,7 +787,7 @@ func (e *ssEnv) storeDiff(a, b *ssEnv, signer sdk.AccAddress) []ssDiffEntry {
 					}
 				}
 			}
-			out = append(out, ssDiffEntry{Store: k.Name(), Key: ssHex([]byte(x), true), A: ssHex(va, ina), B: ssHex(vb, inb), What: ssDescribe(k.Name(), []byte(x))})
+			out = append(out, ssDiffEntry{Store: k.Name(), FullKey: hex.EncodeToString([]byte(x)), Key: ssHex([]byte(x), true), A: ssHex(va, ina), B: ssHex(vb, inb), What: ssDescribe(k.Name(), []byte(x))})
 		}
 	}
 	return out
@@ -915,6 +918,7 @@ func ssRunCase(id string, in ssInput) Case {
 	obs.Eth = ea.routeObs(in, okA, errA, pre)
 	obs.Native = eb.routeObs(in, okB, errBs, pre)
 	diff := e.storeDiff(ea, eb, e.acc[in.Signer])
+	base.lastDiff = diff
 	obs.NDiff = len(diff)
 	if len(diff) > 12 {
 		diff = diff[:12]
@@ -943,6 +947,50 @@ func ssRunCase(id string, in ssInput) Case {
 		c.CoqList = "stake"
 	}
 	return c
+}
+
+// ssRestCase: an input inside the known class must not hide anything else.  When both routes succeed, the
+// recorded deviation touches exactly the signer's balance of the bond denomination (and its index entry) and the
+// total supply, by exactly the rewards paid out; every other record of every store must still agree.  This second
+// case carries no class: a failure of it is a violation.  (When the Ethereum transaction fails at the final commit
+// - amount above the balance held before the call - nothing of it remains; that outcome is pinned by the model.)
+func ssRestCase(e *ssEnv, c Case, in ssInput) (Case, bool) {
+	obs, ok := c.Obs.(ssObs)
+	if !ok || c.Class == "" || !obs.Eth.OK || !obs.Native.OK {
+		return Case{}, false
+	}
+	full := e.lastDiff
+	signer := e.acc[in.Signer]
+	balKey := hex.EncodeToString(append(append([]byte{0x02, byte(len(signer))}, signer...), []byte(utils.BaseDenom)...))
+	idxKey := hex.EncodeToString(append(append(append([]byte{0x03}, []byte(utils.BaseDenom)...), 0x00, byte(len(signer))), signer...))
+	supKey := hex.EncodeToString(append([]byte{0x00}, []byte(utils.BaseDenom)...))
+	msgs := []string{}
+	for _, d := range full {
+		if d.Store == "bank" && (d.FullKey == balKey || d.FullKey == idxKey || d.FullKey == supKey) {
+			continue
+		}
+		msgs = append(msgs, fmt.Sprintf("%s/%s[%s] eth=%s native=%s", d.Store, d.What, d.Key, d.A, d.B))
+	}
+	rew := bigOf(obs.Pre.Pending[in.Call.Val])
+	dBal := new(big.Int).Sub(bigOf(obs.Eth.Bal), bigOf(obs.Native.Bal))
+	dSup := new(big.Int).Sub(bigOf(obs.Eth.Supply), bigOf(obs.Native.Supply))
+	want := new(big.Int).Neg(rew) // delegate: the rewards paid to the signer are overwritten
+	if in.Call.M == "withdraw" {
+		want = rew // the signer is credited although the rewards went to the withdraw address
+	}
+	if !(dBal.Sign() == 0 || dBal.Cmp(want) == 0) || dBal.Cmp(dSup) != 0 {
+		msgs = append(msgs, fmt.Sprintf("the signer's balance differs by %s and the supply by %s (recorded deviation: both %s)", dBal, dSup, want))
+	}
+	r := Case{ID: c.ID + "#rest", Kind: "stake-state-rest", Input: in, Key: c.Key + "#rest", Nontrivial: true,
+		Tags: []string{"known-class:everything-else-compared"}, OracleOK: len(msgs) == 0}
+	if len(msgs) > 0 {
+		if len(msgs) > 12 {
+			msgs = msgs[:12]
+		}
+		r.OracleMsg = "inside the known class evm:rewards-paid-out-by-precompile, apart from the signer's balance and the total supply: " + strings.Join(msgs, "; ")
+		r.Obs = obs
+	}
+	return r, true
 }
 
 // ---------------------------------------------------------------- distribution tags
@@ -1439,6 +1487,14 @@ func ssGen(r *Rng) ssInput {
 	return in
 }
 
+func ssEmit(out *Out, id string, in ssInput) {
+	c := ssRunCase(id, in)
+	out.Emit(c)
+	if r, ok := ssRestCase(ssBaseEnv(), c, in); ok {
+		out.Emit(r)
+	}
+}
+
 func ssDriver(cfg Config, out *Out) error {
 	if cfg.Replay != "" {
 		i := 0
@@ -1450,14 +1506,14 @@ func ssDriver(cfg Config, out *Out) error {
 			if in.Call.M == "" {
 				return nil // a replay line of another driver
 			}
-			out.Emit(ssRunCase(fmt.Sprintf("replay-%d", i), in))
+			ssEmit(out, fmt.Sprintf("replay-%d", i), in)
 			i++
 			return nil
 		})
 	}
 	r := NewRng(NewRng(cfg.Seed).U64() ^ 0x5353) // NewRng(s+1) is NewRng(s) advanced by one step: mix, so that neighbouring seeds differ
 	for i := 0; i < cfg.N; i++ {
-		out.Emit(ssRunCase(fmt.Sprintf("ss%d-%d", cfg.Seed, i), ssGen(r.Fork())))
+		ssEmit(out, fmt.Sprintf("ss%d-%d", cfg.Seed, i), ssGen(r.Fork()))
 	}
 	return nil
 }
